@@ -7,6 +7,7 @@ import (
 	"fmt"
 	"go/token"
 	"go/types"
+	"regexp"
 	"sort"
 	"strconv"
 	"strings"
@@ -1200,6 +1201,18 @@ func (c *Ctx) checkListPaths(o *obs, f *ssa.Function, sp listSpec) {
 				k := n - 1
 				okG := sp.dictGuard && k >= 0 && F.Has(`eq("values",`+strings.TrimSuffix(sp.list, ".items")+`.name)`, true) && F.Has("is<jen.Dict>("+item(k)+")", true) && F.Has("lt(1,len("+sp.list+"))", true)
 				t.note("the list renderer raises an error of its own only for a Dict next to other Values items", okG, "path %s returns %s (facts %s)", traceOf(p), p.Ret[len(p.Ret)-1], F)
+				// … and only for a Dict that would be rendered: a nil or null Dict vanishes like any other
+				// null item (adding or removing null items never changes the result)
+				if okG {
+					liveK := F.Has(eqAtom("nil", item(k)), false)
+					nullKnown := false
+					for _, e := range p.Events {
+						if e.Kind == "invoke" && e.Name == c.nullName() && e.Recv != nil && e.Recv.String() == item(k) && e.Res != nil && F.Has(e.Res.String(), false) {
+							nullKnown = true
+						}
+					}
+					t.note("the Dict error is raised only for a Dict that is neither nil nor null", liveK && nullKnown, "path %s raises it for %s without having established that the item would be rendered (facts %s)", traceOf(p), item(k), F)
+				}
 			}
 			continue
 		}
@@ -1864,9 +1877,52 @@ type builtItem struct {
 type buildResult struct {
 	ok        bool
 	why       string
-	items     []builtItem // elements appended (in order)
+	items     []builtItem // elements appended (in order) — of the first class of paths
 	callbacks []string
 	ncb       int
+	// a construct whose content depends on how many arguments it is given (a loop over a variadic
+	// parameter) appends different things on different paths: the paths are classed by the facts
+	// they establish about the parameters, and the three forms are compared class by class
+	classes map[string][]builtItem
+}
+
+// paramClass: the facts of a path that speak about the parameters only (no receiver, no object
+// made on the path, no call result), as a canonical string.
+func paramClass(p *PXPath) string {
+	var ks []string
+	for atom, pol := range p.Facts {
+		if strings.Contains(atom, "recv") || strings.Contains(atom, "alloc#") || strings.Contains(atom, "@") || strings.Contains(atom, "make#") {
+			continue
+		}
+		isParam := false
+		for i := 0; i < 6; i++ {
+			if strings.Contains(atom, "p"+strconv.Itoa(i)) {
+				isParam = true
+			}
+		}
+		if !isParam {
+			continue
+		}
+		if pol {
+			ks = append(ks, atom)
+		} else {
+			ks = append(ks, "¬"+atom)
+		}
+	}
+	sort.Strings(ks)
+	return strings.Join(ks, ";")
+}
+
+// wantFor: the items the Statement form appends on the paths of the class path p belongs to.
+func (r *buildResult) wantFor(p *PXPath) ([]string, bool) {
+	if len(r.classes) <= 1 {
+		return deepList(r.items), true
+	}
+	its, ok := r.classes[paramClass(p)]
+	if !ok {
+		return nil, false
+	}
+	return deepList(its), true
 }
 
 var builderCache = map[*Ctx]map[*ssa.Function]*buildResult{}
@@ -1962,18 +2018,29 @@ func (c *Ctx) statementForm(f *ssa.Function) *buildResult {
 		}
 		if pi == 0 {
 			res.items, res.callbacks, res.ncb = items, cbs, ncb
-		} else {
-			// all paths must agree
-			if len(items) != len(res.items) || ncb != res.ncb {
-				res.ok, res.why = false, "paths differ in what they append"
-				return res
-			}
-			for i := range items {
-				if items[i].deep != res.items[i].deep {
-					res.ok, res.why = false, "paths differ in what they append"
-					return res
+		}
+		if res.classes == nil {
+			res.classes = map[string][]builtItem{}
+		}
+		key := paramClass(p)
+		if prev, seen := res.classes[key]; seen {
+			// all paths of one class must agree
+			same := len(items) == len(prev)
+			for i := 0; same && i < len(items); i++ {
+				if items[i].deep != prev[i].deep {
+					same = false
 				}
 			}
+			if !same {
+				res.ok, res.why = false, "paths that establish the same facts about the arguments differ in what they append"
+				return res
+			}
+		} else {
+			res.classes[key] = items
+		}
+		if ncb != res.ncb {
+			res.ok, res.why = false, "paths differ in how often they call the callback"
+			return res
 		}
 	}
 	return res
@@ -2038,6 +2105,19 @@ func deepList(items []builtItem) []string {
 	return out
 }
 
+var reMethodOnNew = regexp.MustCompile(`\(\*jen\.Statement\)\.(\w+)\(jen\.newStatement\(\)@\d*(, )?`)
+
+// canonForms: where the enumeration stops at a construct (depth bound) it may stop at its function
+// form in one place and at its Statement form on a new statement in another; the two are the same
+// thing by this very rule (checked for that construct separately) and are spelled alike here.
+func canonForms(xs []string) []string {
+	out := make([]string, len(xs))
+	for i, x := range xs {
+		out[i] = reMethodOnNew.ReplaceAllString(x, "jen.$1(")
+	}
+	return out
+}
+
 func sameList(a, b []string) bool {
 	if len(a) != len(b) {
 		return false
@@ -2055,10 +2135,17 @@ func rulePXAPIForms(c *Ctx) []Obligation {
 	sm := methodsOf(c, "Statement")
 	gm := methodsOf(c, "Group")
 	var names []string
-	for n := range sm {
-		if !nonConstructs[n] {
-			names = append(names, n)
+	for n, m := range sm {
+		// a construct is a builder: it returns the statement it extends. Other exported methods of
+		// *Statement (renderers, Clone, accessors returning numbers, strings, errors) are not.
+		if nonConstructs[n] {
+			continue
 		}
+		rs := m.Signature.Results()
+		if rs.Len() != 1 || types.TypeString(rs.At(0).Type(), shortQual) != "*jen.Statement" {
+			continue
+		}
+		names = append(names, n)
 	}
 	sort.Strings(names)
 	c.stats["constructs"] = len(names)
@@ -2066,7 +2153,6 @@ func rulePXAPIForms(c *Ctx) []Obligation {
 		s := sm[n]
 		sr := c.statementForm(s)
 		o.req(sr.ok, fname(s), "Statement form appends to its receiver in place, once, and returns it", s.Pos(), "%s", sr.why)
-		want := deepList(sr.items)
 		// ---- function form
 		pf := c.jenFunc(n)
 		if pf == nil {
@@ -2099,10 +2185,13 @@ func rulePXAPIForms(c *Ctx) []Obligation {
 						ok, why = false, "has the effect "+e.Kind+" on "+fmt.Sprint(e.Recv)
 					}
 				}
+				wantP, okClass := sr.wantFor(p)
 				if !fresh {
 					ok, why = false, "does not return a freshly built statement ("+p.Ret[0].String()+")"
-				} else if !sameList(got, want) || ncb != sr.ncb {
-					ok, why = false, fmt.Sprintf("builds %v where the Statement form appends %v", got, want)
+				} else if !okClass {
+					ok, why = false, "distinguishes a case of its arguments ("+paramClass(p)+") that the Statement form does not"
+				} else if !sameList(canonForms(got), canonForms(wantP)) || ncb != sr.ncb {
+					ok, why = false, fmt.Sprintf("builds %v where the Statement form appends %v", got, wantP)
 				}
 			}
 			o.req(ok, fname(pf), "function form returns a new statement holding exactly what the Statement form appends for the same arguments", pf.Pos(), "%s", why)
@@ -2165,8 +2254,13 @@ func rulePXAPIForms(c *Ctx) []Obligation {
 				ok, why = false, "does not return a freshly built statement ("+p.Ret[0].String()+")"
 			case nst != 1:
 				ok, why = false, fmt.Sprintf("appends to the group %d times on a path", nst)
-			case !sameList(got, want) || ncb != sr.ncb:
-				ok, why = false, fmt.Sprintf("builds %v where the Statement form appends %v", got, want)
+			default:
+				wantP, okClass := sr.wantFor(p)
+				if !okClass {
+					ok, why = false, "distinguishes a case of its arguments ("+paramClass(p)+") that the Statement form does not"
+				} else if !sameList(canonForms(got), canonForms(wantP)) || ncb != sr.ncb {
+					ok, why = false, fmt.Sprintf("builds %v where the Statement form appends %v", got, wantP)
+				}
 			}
 		}
 		o.req(ok, fname(g), "Group form builds the same new statement, appends it to the group exactly once and returns it", g.Pos(), "%s", why)
